@@ -487,6 +487,34 @@ impl Vm {
       },
     });
 
+    // the methods of the primitive classes operate on the primitive's own representation
+    // which an instance of a subclass would not have
+    let primitives = &self.builtin.primitives;
+    let is_primitive = [
+      primitives.nil,
+      primitives.bool,
+      primitives.channel,
+      primitives.class,
+      primitives.fun,
+      primitives.number,
+      primitives.string,
+      primitives.list,
+      primitives.tuple,
+      primitives.map,
+      primitives.iter,
+      primitives.closure,
+      primitives.method,
+      primitives.native_fun,
+    ]
+    .contains(&super_class);
+
+    if is_primitive {
+      return self.runtime_error_from_str(
+        self.builtin.errors.runtime,
+        &format!("Cannot inherit from builtin class {}.", super_class.name()),
+      );
+    }
+
     let hooks = GcHooks::new(self);
     let mut sub_class = self.fiber.peek(0).to_obj().to_class();
 
